@@ -463,10 +463,26 @@ class Parser:
             return N("ty", form="opaque", text=" ".join(x.text for x in self.toks[start:self.i]))
         if t.kind == "ident" and t.text == "fn":
             self.i += 1
-            self.skip_balanced()
+            # `fn(T, ..) -> R`: the parameter / result types are recorded when they are plain types (emit.py reads a
+            # function pointer over vocabulary types as a "fnval"); otherwise the node is what it always was
+            save = self.i
+            params = None
+            try:
+                self.expect("(")
+                params = []
+                while not self.at(")"):
+                    params.append(self.parse_type())
+                    if not self.accept(","):
+                        break
+                self.expect(")")
+            except ParseError:
+                params = None
+                self.i = save
+                self.skip_balanced()
+            ret = None
             if self.accept("->"):
-                self.parse_type()
-            return N("ty", form="opaque", text="fn")
+                ret = self.parse_type()
+            return N("ty", form="opaque", text="fn", params=params, ret=ret)
         if self.at("<"):
             # qualified path <T as Trait>::X
             self.skip_generics()
